@@ -35,9 +35,41 @@ _TASKS = None
 _TIMEOUT = 20000
 
 
+_COV = None
+
+
+def _cov_start():
+    """VERIF_COVERAGE=<dir>: record which functions of the repository's Python (symbolic copies and real modules alike - both are
+    compiled with the original file name) each task executes; a development aid (tools/coverage_report.py), never used by a check"""
+    global _COV
+    d = os.environ.get("VERIF_COVERAGE")
+    if not d:
+        return
+    root = os.environ.get("VERIF_REPO", "/repo") + os.sep
+    _COV = set()
+
+    def prof(frame, event, arg):
+        if event == "call":
+            c = frame.f_code
+            if c.co_filename.startswith(root):
+                _COV.add((c.co_filename[len(root):], getattr(c, "co_qualname", c.co_name), c.co_firstlineno))
+    sys.setprofile(prof)
+
+
+def _cov_stop(task):
+    d = os.environ.get("VERIF_COVERAGE")
+    if not d or _COV is None:
+        return
+    sys.setprofile(None)
+    os.makedirs(d, exist_ok=True)
+    with open(os.path.join(d, "%s_%d.json" % (re.sub(r"[^A-Za-z0-9_.-]", "_", task)[:120], os.getpid())), "w") as f:
+        json.dump(dict(task=task, functions=sorted(_COV)), f)
+
+
 def _worker(i):
     t = _TASKS[i]
     t0 = time.time()
+    _cov_start()
     try:
         if t.engine == "custom":
             out = t.fn(dict(t.cfg))
@@ -57,6 +89,7 @@ def _worker(i):
         out = dict(task=t.name, records=[], paths=0, solver_time=0.0,
                    error="%s: %s\n%s" % (type(e).__name__, e, traceback.format_exc()[-1500:]))
     out["wall"] = time.time() - t0
+    _cov_stop("%s/%s" % (_PROP.PROP_ID, t.name))
     return i, out
 
 
